@@ -83,7 +83,7 @@ CheckCompose(e) ==
        /\ V(IF unpruned THEN "C02" ELSE "C03", e,
             IF unpruned THEN PwlEq(P0(h), ComposePieces(P0(f), P0(g)), d) ELSE PwlEqUpToThin(P0(h), ComposePieces(P0(f), P0(g)), d),
             "h = f.compose(g) differs from g after f (value or definedness) on a non-empty region", "law/" \o Shape(f) \o "-" \o Shape(g))
-       /\ V(IF unpruned THEN "C02" ELSE "C03", e, GridAgrees(e, h, LAMBDA xs : EvalAfter(g, EvalSpec(f, xs, e.grid.den))),
+       /\ V("C02", e, ~unpruned \/ GridAgrees(e, h, LAMBDA xs : EvalAfter(g, EvalSpec(f, xs, e.grid.den))),
             "evaluate() of the composed tree differs from g(f(x)) on a grid point", "grid/" \o Shape(f) \o "-" \o Shape(g))
        /\ V("C02", e, ~unpruned \/ \A i \in Occ(f) :
                /\ i \in Occ(h) /\ h.nodes[i].p = f.nodes[i].p
@@ -100,12 +100,12 @@ CheckArith(e) ==
     /\ V("C04", e, Sane(h) /\ WellFormed(h), "arithmetic result is not well-formed", "wf/" \o Shape(a) \o "-" \o Shape(b))
     /\ IF ~Sane(h) THEN V("C07", e, FALSE, "arithmetic result is structurally broken", "law/" \o e.variant)
        ELSE LET ok == PwlEqUpToThin(P0(h), LiftPieces(op, P0(a), P0(b)), d)
-                gridok == GridAgrees(e, h, LAMBDA xs : LiftEval(op, a, b, xs, e.grid.den))
+                gridok == ~PwlEq(P0(h), LiftPieces(op, P0(a), P0(b)), d) \/ GridAgrees(e, h, LAMBDA xs : LiftEval(op, a, b, xs, e.grid.den))
             IN /\ V("C07", e, ok, "a op b differs from the point-wise lifting (value or definedness) on a region with non-empty interior", "law/" \o e.variant \o "/" \o Shape(a) \o "-" \o Shape(b))
                /\ V("C03", e, ok, "on-the-fly pruning of a op b changed the function on a region with non-empty interior", "law/" \o Shape(a) \o "-" \o Shape(b))
                /\ V("C07", e, gridok, "evaluate() of a op b differs from the lifted terminal at a grid point", "grid/" \o e.variant \o "/" \o Shape(a) \o "-" \o Shape(b))
     /\ V("C07", e, e.rhs_after = e.rhs, "the right operand was modified", "rhs")
-    /\ V("C07", e, e.others.rr = e.post /\ e.others.oo = e.post /\ e.others.ro = e.post,
+    /\ V("C07", e, "others" \notin DOMAIN e \/ (e.others.rr = e.post /\ e.others.oo = e.post /\ e.others.ro = e.post),
          "the ownership variants (&a op &b, a op b, &a op b) do not all give the tree of a op &b", "variants")
 
 \* tree (op) affine / affine (op) tree; variant ta, tra: tree op aff ; at, rat: aff op tree
@@ -113,7 +113,7 @@ CheckArithAff(e) ==
     LET a == ToT(e.pre)  h == ToT(e.post)  d == a.dim  op == ArithOp(e)
         fa == e.aff
         AffPiece == {[cons |-> {}, out |-> Out(fa.m, fa.b, fa.q)]}
-        treeFirst == e.variant \in {"ta", "tra"}
+        treeFirst == e.variant \in {"ta", "tra", ""}
         expected == IF treeFirst THEN LiftPieces(op, P0(a), AffPiece) ELSE LiftPieces(op, AffPiece, P0(a))
     IN /\ V("C04", e, Sane(h) /\ WellFormed(h), "tree/affine arithmetic result is not well-formed", "wf")
        /\ V("C07", e, Sane(h) /\ PwlEq(P0(h), expected, d), "tree (op) affine differs from the point-wise lifting (operand order?)", "law/" \o e.variant)
@@ -145,7 +145,7 @@ CheckReduce(e) ==
        /\ V("C08", e, PwlEq(P0(h), P0(f), d), "reduce changed the value or definedness of the tree", "law/" \o Shape(f))
        /\ V("C08", e, GridAgrees(e, h, LAMBDA xs : EvalSpec(f, xs, e.grid.den)), "evaluate() after reduce differs at a grid point", "grid")
        /\ V("C08", e, Cardinality(Occ(h)) <= Cardinality(Occ(f)), "reduce increased the number of nodes", "size")
-       /\ V("C08", e, e.post2 = e.post, "reduce is not idempotent", "idem")
+       /\ V("C08", e, "post2" \notin DOMAIN e \/ e.post2 = e.post, "reduce is not idempotent", "idem")
        /\ V("C08", e, \A i \in Occ(h) \ {h.root} :
                 ~(~h.nodes[i].leaf /\ h.nodes[i].ch[1] # NONE /\ h.nodes[i].ch[2] # NONE
                   /\ h.nodes[h.nodes[i].ch[1]].leaf /\ h.nodes[h.nodes[i].ch[2]].leaf
@@ -157,11 +157,89 @@ CheckReduce(e) ==
 
 Inexact(e) == (~IsNone(e.post) /\ ~AllExact(e.post)) \/ ~AllExact(e.pre) \/ (~IsNone(e.rhs) /\ ~AllExact(e.rhs))
 
+
+\* ------------------------------------------------------------------ caches (C05) on recorded states; witnesses are logged at scale WQ
+WQ == 100000
+SumAbs(v) == LET RECURSIVE G(_) G(n) == IF n = 0 THEN 0 ELSE Abs(v[n]) + G(n - 1) IN G(Len(v))
+\* a.w <= b within the fixed-point budget (rounding of w: 0.5 per coordinate; library tolerance 1e-8)
+SatTol(c, ws, q) == Dot(c.a, ws) <= c.b * WQ + SumAbs(c.a) + q
+WitnessOK(t, i) ==
+    \A j \in 1..Len(t.nodes[i].w) :
+        LET wj == t.nodes[i].w[j] IN ~wj.ok \/ \A c \in ClosedRegion(t, i) : SatTol(c, wj.p, t.nodes[i].q)
+CacheSound(t) ==
+    \A i \in Occ(t) \ {t.root} :
+        /\ t.nodes[i].st = "W" => WitnessOK(t, i)
+        /\ t.nodes[i].st = "X" => ~HasInterior(ClosedRegion(t, i), t.dim)
+BadCacheKind(t) ==
+    IF \E i \in Occ(t) \ {t.root} : t.nodes[i].st = "X" /\ HasInterior(ClosedRegion(t, i), t.dim) THEN "infeasible-mark" ELSE "witness"
+
+TotalTree(t) == \A i \in Occ(t) : ~t.nodes[i].leaf => \A sl \in 1..t.k : t.nodes[i].ch[sl] # NONE
+RECURSIVE ThinAnc(_, _)
+\* i or one of its ancestors has a closed path region with empty interior
+ThinAnc(t, i) == ~HasInterior(ClosedRegion(t, i), t.dim) \/ (t.nodes[i].p # NONE /\ ThinAnc(t, t.nodes[i].p))
+
+\* in-situ LP answers (C10): every LP the library asked during this step, with the solver's real answer
+PolyOf(c) == {Le(c.m[r], c.b[r]) : r \in 1..Len(c.m)}
+LpOK(c) ==
+    LET Pc == PolyOf(c) IN
+    ~c.ex \/ (/\ c.real.st = "I" => ~HasInterior(Pc, c.n)
+              /\ HasInterior(Pc, c.n) => c.real.st # "I"
+              /\ (c.real.st = "O" /\ c.real.w.ok) => \A k \in Pc : SatTol(k, c.real.w.p, c.q))
+CheckLp(e) ==
+    "lp" \notin DOMAIN e \/ \A n \in 1..Len(e.lp) :
+        Require(LpOK(e.lp[n]), Verdict("C10", e, "LP answer during " \o e.op \o ": infeasible verdict on a polytope with interior, feasible polytope reported infeasible, or witness outside the polytope",
+                                        "insitu/" \o e.lp[n].real.st))
+
+CheckEliminate(e) ==
+    LET f == ToT(e.pre)  h == ToT(e.post)  d == f.dim
+        total == TotalTree(f)
+        sh == IF total THEN "total" ELSE "partial"
+        removed == Occ(f) \ Occ(h)
+        Forwarded(i) == ~f.nodes[i].leaf /\ (\A sl \in 1..f.k : f.nodes[i].ch[sl] # NONE /\ (f.nodes[i].ch[sl] \in Occ(h) \/ ThinAnc(f, f.nodes[i].ch[sl])))
+                        /\ Cardinality({sl \in 1..f.k : f.nodes[i].ch[sl] \in Occ(h)}) = 1
+    IN
+    /\ V("C03", e, PwlEqUpToThin(P0(h), P0(f), d), "infeasible_elimination changed the value or definedness on a region with non-empty interior", "law/" \o sh)
+    /\ V("C03", e, \A i \in removed : ThinAnc(f, i) \/ Forwarded(i),
+         "a removed node lies on a path with non-empty interior, or a decision was skipped although another branch can be taken", "removed/" \o sh)
+    /\ V("C03", e, \A i \in Occ(h) : i \in Occ(f) /\ AffOf(h.nodes[i]) = AffOf(f.nodes[i]), "a surviving node changed index or function", "surv")
+    /\ V("C06", e, ~total \/ e.faulty \/ \A i \in Occ(h) \ {h.root} : Feas(ClosedRegion(h, i), d),
+         "a node with an empty path region is left after infeasible_elimination on a total tree", "empty-left")
+    /\ V("C06", e, ~total \/ e.faulty \/ \A i \in Occ(h) \ {h.root} : ~h.nodes[i].leaf => NumChildren(h.nodes[i]) # 1,
+         "a decision below the root is left with a single branch after infeasible_elimination on a total tree", "single-branch")
+    /\ V("C06", e, ~total \/ e.faulty \/ IsNone(e.second) \/
+            (e.second.res = "ok" /\ ObsTree(ToT(e.second.post)) = ObsTree(h)),
+         "running infeasible_elimination again changed the tree", "idem")
+
+\* C11: the step ran with injected LP faults
+CheckFaulty(e) ==
+    LET f == ToT(e.pre)  h == ToT(e.post)  d == f.dim
+        expected == IF e.op = "eliminate" THEN P0(f) ELSE ComposePieces(P0(f), P0(ToT(e.rhs)))
+        kinds == {e.lp[n].fault : n \in 1..Len(e.lp)} \ {""}
+        kd == IF kinds = {} THEN "none" ELSE CHOOSE x \in kinds : TRUE
+    IN
+    /\ V("C11", e, Sane(h) /\ WellFormed(h), "tree not well-formed after pruning under LP faults", "wf/" \o kd)
+    /\ V("C11", e, ~Sane(h) \/ PwlEqUpToThin(P0(h), expected, d), "pruning under LP faults changed the represented function", "law/" \o kd)
+    /\ V("C11", e, ~Sane(h) \/ CacheSound(h), "an unsound witness or infeasible verdict was cached under LP faults", "cache/" \o kd)
+    /\ V("C11", e, IsNone(e.nofault) \/ e.nofault.res # "ok" \/ ~Sane(h) \/ Occ(ToT(e.nofault.post)) \subseteq Occ(h),
+         "a node kept by the fault-free run was removed under LP faults (more pruning instead of less)", "more-pruning/" \o kd)
+
+\* every step of a history: well-formedness and cache soundness are preserved (C04, C05), LP answers are right (C10)
+CheckHistoryStep(e) ==
+    LET f == ToT(e.pre)  h == ToT(e.post) IN
+    /\ V("C04", e, ~(Sane(f) /\ WellFormed(f)) \/ (Sane(h) /\ WellFormed(h)), "the tree is no longer well-formed after " \o e.op, "history-wf")
+    /\ V("C05", e, ~Sane(h) \/ ~Sane(f) \/ ~CacheSound(f) \/ CacheSound(h),
+         "a cached witness violates its path conditions or a node with non-empty interior is marked infeasible after " \o e.op, "cache/" \o BadCacheKind(h))
+    /\ CheckLp(e)
+
 CheckEvent(e) ==
     IF e.res # "panic" /\ Inexact(e) THEN Note("INEXACT", e, "values not representable at the trace scale: exact comparison skipped for " \o e.op)
+    ELSE IF e.mode = "history" /\ ~(Sane(ToT(e.pre)) /\ WellFormed(ToT(e.pre)))
+    THEN Note("CASCADE", e, "pre-state already ill-formed (reported at the step that caused it): step skipped")
+    ELSE IF e.res = "panic" /\ "faulty" \in DOMAIN e /\ e.faulty
+    THEN Verdict("C11", e, "operation panicked under injected LP faults: " \o e.op, e.op \o "/panic")
     ELSE IF e.res = "panic"
     THEN /\ Verdict("C04", e, "operation panicked on dimension-compatible, well-formed operands: " \o e.op, e.op \o "/panic")
-         /\ Verdict(CASE e.op \in {"compose", "apply_func"} -> "C02" [] e.op = "compose_prune" -> "C03" [] e.op = "reduce" -> "C08" [] OTHER -> "C07",
+         /\ Verdict(CASE e.op \in {"compose", "apply_func"} -> "C02" [] e.op \in {"compose_prune", "eliminate"} -> "C03" [] e.op = "reduce" -> "C08" [] OTHER -> "C07",
                     e, "operation panicked: " \o e.op, e.op \o "/panic")
     ELSE /\ CASE e.op \in {"compose", "compose_prune"} -> CheckCompose(e)
               [] e.op \in {"add", "sub", "mul", "div"} -> CheckArith(e)
@@ -169,6 +247,9 @@ CheckEvent(e) ==
               [] e.op = "neg" -> CheckNeg(e)
               [] e.op = "apply_func" -> CheckApplyFunc(e)
               [] e.op = "reduce" -> CheckReduce(e)
+              [] e.op = "eliminate" -> CheckEliminate(e)
+         /\ (e.mode # "history" \/ CheckHistoryStep(e))
+         /\ (~("faulty" \in DOMAIN e /\ e.faulty) \/ CheckFaulty(e))
          /\ DriftCheck(e)
 
 Init == l = 1
